@@ -174,6 +174,37 @@ Definition step_leave (st : vstate) : outcome :=
     end
   end.
 
+(* "add to stack / replace keys" at the end of an entering iteration *)
+Definition push_state (st : vstate) (index : nat) (node : option gnode) (nodeSlice : list gnode)
+           (path : list pkey) : vstate :=
+  let fr := mkFrame index (v_keys st) (v_edits st) (v_inSlice st) in
+  let keys' := match nodeSlice with
+               | _ :: _ => KNodes nodeSlice
+               | [] => match node with Some n => KFields (keys_of (g_kind n)) | None => KFields [] end
+               end in
+  mkState (fr :: v_stack st) node nodeSlice (negb (is_nil nodeSlice)) (v_prevInSlice st)
+          keys' 0 [] path (v_ancestors st ++ [v_parent st])
+          (v_ancestorsSlice st ++ [v_parentSlice st]) (v_rebuilt st).
+
+(* the visit-function call of an entering iteration and what follows it; the loop guard
+   (sstack == nil) cannot fire after a push *)
+Definition enter_node (st : vstate) (index : nat) (key : option pkey) (node : option gnode)
+           (nodeSlice : list gnode) (path : list pkey) : outcome :=
+  match node with
+  | None => Next (push_state st index node nodeSlice path) []
+  | Some n =>
+    match sel (g_kind n) PEnter with
+    | None => Next (push_state st index node nodeSlice path) []
+    | Some fn =>
+      let ev := ev_of PEnter fn n key (v_parent st) path (v_ancestors st) in
+      match pol (g_id n) PEnter with
+      | Break => Stop (set_path st path) [ev]
+      | Skip => Next (set_next (set_path st (snd (pop path))) (S index)) [ev]
+      | Continue => Next (push_state st index node nodeSlice path) [ev]
+      end
+    end
+  end.
+
 (* the `else { ... }` half, index = the key being processed *)
 Definition step_enter (root : gnode) (st : vstate) (index : nat) : outcome :=
   let key := if v_inSlice st then Some (KIdx (N.of_nat index))
@@ -191,29 +222,7 @@ Definition step_enter (root : gnode) (st : vstate) (index : nat) : outcome :=
     let path := if (negb (v_inSlice st) && is_some (v_parent st))
                    || (v_inSlice st && negb (is_nil (v_parentSlice st)))
                 then v_path st ++ optl key else v_path st in
-    let push (evs : list event) : outcome :=
-      let fr := mkFrame index (v_keys st) (v_edits st) (v_inSlice st) in
-      let keys' := match nodeSlice with
-                   | _ :: _ => KNodes nodeSlice
-                   | [] => match node with Some n => KFields (keys_of (g_kind n)) | None => KFields [] end
-                   end in
-      Next (mkState (fr :: v_stack st) node nodeSlice (negb (is_nil nodeSlice)) (v_prevInSlice st)
-                    keys' 0 [] path (v_ancestors st ++ [v_parent st])
-                    (v_ancestorsSlice st ++ [v_parentSlice st]) (v_rebuilt st)) evs in
-    match node with
-    | None => push []
-    | Some n =>
-      match sel (g_kind n) PEnter with
-      | None => push []
-      | Some fn =>
-        let ev := ev_of PEnter fn n key (v_parent st) path (v_ancestors st) in
-        match pol (g_id n) PEnter with
-        | Break => Stop (set_path st path) [ev]
-        | Skip => Next (set_next (set_path st (snd (pop path))) (S index)) [ev]
-        | Continue => push [ev]
-        end
-      end
-    end.
+    enter_node st index key node nodeSlice path.
 
 Definition step (root : gnode) (st : vstate) : outcome :=
   let index := v_next st in
